@@ -6,7 +6,7 @@ LEVEL = "exploration"
 RULE = (
     "cases = generated deterministic supported models (restricted choices -> segments of unequal length "
     "per agent) x a batch B of N agents with unique ids; the real simulate function is run on B, on a "
-    "permutation of B, on a random subset, on a batch with duplicated agents, on single agents, and with "
+    "permutation of B, on random subsets (a third of the batch, a pair, a triple), on a batch with duplicated agents, on single agents, and with "
     "reversed key order of the initial_states mapping; paths are keyed by agent id and must be equal "
     "(states and choices exactly, value 1e-12); a differing choice is a violation only if the reference's "
     "Q-gap between the two choices exceeds 1e-9 (otherwise counted tie_ambiguous). For stochastic models "
@@ -92,6 +92,8 @@ def run_case(case):
         "permutation": rng.permutation(N),
         "subset": np.sort(rng.permutation(N)[: max(1, N // 3)]),
         "duplicates": np.concatenate([rng.integers(0, N, N // 2), [0, 0, N - 1, N - 1]]),
+        "pair": np.sort(rng.permutation(N)[:2]),
+        "triple": np.sort(rng.permutation(N)[:3]),
         "single_first": np.array([0]),
         "single_last": np.array([N - 1]),
         "reversed_keys": base_ids,
